@@ -408,3 +408,39 @@ def _mentions_static(x, name):
     if isinstance(x, list):
         return any(_mentions_static(v, name) for v in x)
     return False
+
+
+
+def no_hidden_state(ck, roots, rule, what, fn_values=()):
+    """No workspace function reachable from `roots` reads thread-local state or a static with interior mutability (write-once tables
+    excepted): the computed values are functions of the arguments alone, whatever was computed before on this thread or in this process."""
+    import json as _json
+    import re as _re
+    from callgraph import CallGraph
+    prog = ck.prog
+    cg = CallGraph(prog)
+    seen, _e, _i = cg.reachable(list(roots), fn_values=list(fn_values))
+    n_fn = 0
+    for n in sorted(seen):
+        b = prog.raw_body(n)
+        if b is None or b.crate not in ("weechess_core", "weechess_engine"):
+            continue
+        n_fn += 1
+        for blk in b.blocks:
+            for s_ in blk["stmts"]:
+                if s_["k"] == "assign" and "thread_local" in s_["rv"]:
+                    ck.fail(rule + ".thread_local", n.split("::")[-1], b.where(s_.get("line")),
+                            "%s reads thread-local state: the result depends on what this thread computed before" % what)
+        for name in sorted(set(_re.findall(r'"\\$static": "([^"]+)"', _json.dumps(b.j)))):
+            st = prog.statics.get(name)
+            if st is None:
+                continue
+            ty = st["ty"]
+            if ty.startswith("lazy_static::lazy::Lazy<") or ty == name:
+                continue
+            if any(m in ty for m in INTERIOR_MUT) or "static mut" in ty:
+                once, why = write_once_static(prog, name, st)
+                ck.req(once, rule + ".static", name.split("::")[-1], b.where(),
+                       "%s reads the mutable static `%s: %s`: the result depends on earlier computations" % (what, name, ty[:80]))
+    ck.ok(rule + ".pure", what, "", "%d reachable workspace function(s): no thread-local access, no mutable static" % n_fn)
+    return n_fn
